@@ -27,6 +27,96 @@ EXPLANATION = (
 ORI = 'spatialpandas.geometry._algorithms.orientation'
 
 
+def _flip_table(P, R, op):
+    nz = [c for c in astq.own_calls(op) if norm(c.func).split('.')[-1] in ('nonzero', 'flatnonzero', 'where') and c.args]
+    if not nz:
+        R.abstain('C15.f', op, None, 'flip selection (np.nonzero(<decision>)) not recognised', construct='flip decision table')
+        return
+    decision = nz[0].args[0]
+    exp_name = None
+    for s_ in walk_own(op.node):
+        if isinstance(s_, ast.Assign) and isinstance(s_.targets[0], ast.Subscript) and norm(s_.value) == 'True' and isinstance(s_.targets[0].value, ast.Name):
+            exp_name = s_.targets[0].value.id
+
+    class Unsupported(Exception):
+        pass
+
+    def elem_def(name):
+        """per-ring definition of array `name`: the value stored at `name[i] = <expr>` inside a loop"""
+        st = [x for x in walk_own(op.node) if isinstance(x, ast.Assign) and isinstance(x.targets[0], ast.Subscript) and isinstance(x.targets[0].value, ast.Name)
+              and x.targets[0].value.id == name and norm(x.value) != 'True']
+        return st[0].value if len(st) == 1 else None
+
+    def ev(e, sign, exp, depth=0):
+        if depth > 8:
+            raise Unsupported('depth')
+        if isinstance(e, ast.Constant) and isinstance(e.value, (int, float, bool)):
+            return e.value
+        if isinstance(e, ast.Name):
+            if e.id == exp_name:
+                return exp
+            d = elem_def(e.id)
+            if d is not None:
+                return ev(d, sign, exp, depth + 1)
+            g_, dd = astq.unique_def(op, e.id)
+            if isinstance(dd, ast.AST):
+                return ev(dd, sign, exp, depth + 1)
+            raise Unsupported(e.id)
+        if isinstance(e, ast.Call):
+            r_ = P.resolve_call(op, e)
+            if r_ and r_[0] == 'func' and r_[1].name == 'compute_area':
+                return float(sign)              # any representative of the sign class: only comparisons with 0 may look at it
+            fn_ = norm(e.func).split('.')[-1]
+            if fn_ in ('logical_and', 'logical_or', 'logical_xor', 'not_equal', 'equal') and len(e.args) == 2:
+                a_, b_ = ev(e.args[0], sign, exp, depth + 1), ev(e.args[1], sign, exp, depth + 1)
+                return {'logical_and': bool(a_) and bool(b_), 'logical_or': bool(a_) or bool(b_), 'logical_xor': bool(a_) != bool(b_), 'not_equal': a_ != b_, 'equal': a_ == b_}[fn_]
+            if fn_ == 'logical_not' and len(e.args) == 1:
+                return not ev(e.args[0], sign, exp, depth + 1)
+            if fn_ == 'sign' and len(e.args) == 1:
+                v_ = ev(e.args[0], sign, exp, depth + 1)
+                return (v_ > 0) - (v_ < 0)
+            raise Unsupported(norm(e.func))
+        if isinstance(e, ast.Compare) and len(e.ops) == 1:
+            a_, b_ = ev(e.left, sign, exp, depth + 1), ev(e.comparators[0], sign, exp, depth + 1)
+            o_ = type(e.ops[0])
+            if isinstance(a_, float) and not isinstance(a_, bool) and not (isinstance(b_, (int, float)) and b_ == 0) and not isinstance(b_, bool):
+                raise Unsupported('area compared with a non-zero value')
+            return {ast.Lt: a_ < b_, ast.LtE: a_ <= b_, ast.Gt: a_ > b_, ast.GtE: a_ >= b_, ast.Eq: a_ == b_, ast.NotEq: a_ != b_}[o_]
+        if isinstance(e, ast.BinOp) and isinstance(e.op, (ast.BitAnd, ast.BitOr, ast.BitXor)):
+            a_, b_ = bool(ev(e.left, sign, exp, depth + 1)), bool(ev(e.right, sign, exp, depth + 1))
+            return a_ and b_ if isinstance(e.op, ast.BitAnd) else (a_ or b_ if isinstance(e.op, ast.BitOr) else a_ != b_)
+        if isinstance(e, ast.BoolOp):
+            vs = [bool(ev(v, sign, exp, depth + 1)) for v in e.values]
+            return all(vs) if isinstance(e.op, ast.And) else any(vs)
+        if isinstance(e, ast.UnaryOp) and isinstance(e.op, (ast.Invert, ast.Not)):
+            return not bool(ev(e.operand, sign, exp, depth + 1))
+        if isinstance(e, ast.Subscript):
+            return ev(e.value, sign, exp, depth + 1)
+        raise Unsupported(type(e).__name__)
+
+    wrong = []
+    try:
+        for sign in (-1, 0, 1):
+            for exp in (True, False):
+                got = bool(ev(decision, sign, exp))
+                want = False if sign == 0 else ((sign > 0) != exp)
+                if got != want:
+                    wrong.append({'area_sign': sign, 'expected_ccw': exp, 'flips': got, 'wanted': want})
+    except Unsupported as e:
+        R.abstain('C15.f', op, decision, f'flip decision uses a construct the table evaluator does not model ({e})', construct='flip decision table')
+        return
+    zero = [w for w in wrong if w['area_sign'] == 0]
+    if not wrong:
+        msg = ''
+    elif zero and len(zero) == len(wrong):
+        msg = f'a ring with zero area is flipped when expected_ccw={zero[0]["expected_ccw"]}: it has no orientation, so every call reverses it again and oriented() is not idempotent'
+    else:
+        msg = f'flip decision is wrong on {len(wrong)} of 6 (area sign, expected direction) cases, e.g. {wrong[0]}'
+    R.check(not wrong, 'C15.f', op, decision, 'flip decision table: a ring with area is flipped iff it runs against its expected direction; a ring without area is never flipped (idempotence)',
+            msg, construct='flip decision table', values=wrong[:6])
+    R.count('flip_table_cases', 6)
+
+
 def run(P, R, tier):
     op = P.func(ORI, 'orient_polygons')
     E = effects(P)
@@ -136,6 +226,10 @@ def run(P, R, tier):
                 R.abstain('C15.e', op, s, f'cannot relate the length `{norm(n_)}` of the marker array to the ring count')
         elif ok:
             R.abstain('C15.e', op, s, 'marker array allocation not recognised')
+    # C15.f: the flip decision over the sign of the ring's area (finite table).  sign in {-, 0, +}, expected in {ccw, cw}:
+    #   sign != 0: flip  <=>  (sign > 0) != expected_ccw      (every ring with area ends up in its expected direction)
+    #   sign == 0: never flip                                   (no orientation to correct; flipping it again on every call breaks idempotence)
+    _flip_table(P, R, op)
     # flips: both strides over the same range, reversed
     flips = [s for s in ast.walk(op.node) if isinstance(s, ast.Assign) and isinstance(s.targets[0], ast.Subscript) and isinstance(s.targets[0].slice, ast.Slice)
              and s.targets[0].slice.step is not None and norm(s.targets[0].slice.step) == '2' and norm(s.targets[0].value) == op.params[0]]
